@@ -18,6 +18,31 @@ Oracle: the NumPy reference model ``vlib/ref/geomref.py`` +
 parameter at a time), the relations of the property statement between the
 ODL methods themselves, the stack of single-parameter ODL evaluations for
 every vectorised call, and corner projection for the factories.
+
+Known findings (``known_findings.d/C19.json``): the input region of each is
+defined by a predicate over the descriptor (`known_region` in `run_geom`);
+cases with ``probe: false`` skip exactly the clause that is known to fail
+there and count it in the evidence notes (``excluded:<id>``), cases with
+``probe: true`` (1 in 5, factories 1 in 2, and every regression replay)
+evaluate it.  Independent clause blocks of one case are all evaluated
+(`_Collector`); if several fail, a violation that matches no known finding
+is reported in preference, so a known finding never masks a new one.
+
+Deviations from DESIGN.md section 5 (C19):
+* budgets 16 000 / 160 000 instead of 1 500 / 50 000 (a case costs ~20 ms;
+  the quick tier would otherwise finish in 2 s);
+* orthonormality / determinant tolerance 64*eps*(1+|angle|) instead of the
+  flat 1e-12 (derived, tighter);
+* rank-mixed parameters (scalar angle with an n-D detector array) ARE
+  generated: the docstring promises ``broadcast(mparam, dparam).shape``;
+  the library raises there (known finding K2), equal-shape pairs and
+  explicit ``(m, 1)`` / ``(1, n)`` outer products work as DESIGN says;
+* the factory coverage uses ALL generated angles, not ">= 12";
+* additional clauses: constructors must not modify the arrays they are
+  given, slicing twice / slicing must not change the parent or earlier
+  slices (root cause of the incomplete F20 repair, known finding K7);
+* curved 3-D detectors are only generated with exactly perpendicular
+  integer axes (the library compares the dot product with 0.0 exactly).
 """
 import os
 import traceback
@@ -61,6 +86,11 @@ K_TOL = 64
 TOLERANCES = {
     'rotation': 'orthonormality, det-1, vs reference, group law: '
                 '64*eps*(1+|angle|) entry-wise',
+    'init_amplification': 'all bounds below are multiplied by 12 (constructor)'
+                          ' / 4 (frommatrix): the documented default-vector '
+                          'rotation takes arccos of a dot product, vectors '
+                          'keep >= 0.1 rad from the degenerate directions '
+                          '(1/sin(0.1) ~ 10)',
     'positions': '|got-ref| <= 64*eps*(1+|angle|max)*S entry-wise, S = 1 + '
                  '|translation| + |det_pos| + radii + |offset| + '
                  '|pitch*angle/2pi| + |shifts| + |detector surface point|',
@@ -467,8 +497,9 @@ def _halfturn(refdet):
 
 def check_detector(det, refdet, kind, dlo, dhi, dcomps, cb, strata,
                    scale_extra=0.0, amp=1.0, probe=True):
-    """All detector clauses; returns ``{index: surface point}`` of the
-    single evaluations (reused by the geometry clauses)."""
+    """Single-parameter detector clauses (surface vs reference, derivative
+    vs reference and finite differences, normal, measure); returns the
+    single evaluations for the vectorised comparison."""
     dname = DET_CLS[kind]
     D = len(dlo)
     n = D + 1
@@ -894,8 +925,6 @@ def run_geom(desc):
                             geom.detector.check_bounds))
 
     # ---- detector clauses --------------------------------------------------
-    # the reference detector uses ODL's own (already verified) unit axes so
-    # that the small error of the default rotation does not enter twice
     probe = bool(desc.get('probe', True))
     strata.append('probe-known-regions:' + str(probe))
     notes = {}
@@ -1099,6 +1128,9 @@ def run_geom(desc):
     k3 = kind in ('cyl', 'sph') and 'within-d' in pc_d
     k6 = M == 3 and _bshape(mcomps) != _bshape(mcomps[:2])
     moved = bool(np.any(ref.t != 0)) and cls in ('par2d', 'par3d_axis')
+    # arguments the constructors are known to modify in place (K7 / K8)
+    risky = (('det_pos_init' in passed and bool(np.any(ref.t != 0))) or
+             'src_to_det_init' in passed)
     if not known_region('C19-K3', k3):
         col.run(check_detector_vec, geom.detector, kind, dcomps, dsingle,
                 strata)
@@ -1124,8 +1156,8 @@ def run_geom(desc):
                 sl['repeat'] = False
             col.run(_check_slice, geom, ref, sl, cname, argcls, n, M,
                     D, tol, dlo, dhi, divergent, strata, passed,
-                    purity=probe)
-    elif not known_region('C19-K7/K8', bool(passed)):
+                    purity=probe or not risky)
+    elif not known_region('C19-K7/K8', risky):
         col.run(_check_purity, passed, cname)
     if not known_region('C19-K4', D == 2 and 'within-d' in pc_d):
         col.run(check_detector_measure_vec, geom.detector, kind, dcomps,
